@@ -97,7 +97,7 @@ def run_shard(campaign, shard, nshards, seed, tier):
                 params['tx_data_min_length'] = ml
             if pad is not None:
                 params['tx_padding'] = pad
-            params['can_fd'] = tx_dl > 8 or rng.random() < 0.3
+            params['can_fd'] = rng.random() < (0.7 if tx_dl > 8 else 0.3)      # the link-layer size does not depend on the flag: both combinations are legal
             params['bitrate_switch'] = rng.random() < 0.5
             inst = {'txa': a, 'rxa': None, 'params': params}
             setup_spec(m, inst)
